@@ -55,8 +55,8 @@ def naming(rnd, p):
 CHUNKS = 4      # fixed (results do not depend on the number of CPUs); the chunks are validated by parallel TLC processes
 
 
-def parallel(ctx, jobs):
-    """jobs: list of (args, trace, what); run the driver and validate each recorded trace; returns [(ok, n)]"""
+def pool(ctx, fns):
+    """run the thunks on a thread pool (each starts its own TLC / driver process); exceptions propagate"""
     if not hasattr(ctx, "_c11_lock"):
         ctx._c11_lock = threading.Lock()
         orig = ctx.metadir
@@ -65,12 +65,17 @@ def parallel(ctx, jobs):
             with ctx._c11_lock:
                 return orig()
         ctx.metadir = metadir           # vlib's metadir counter is not thread-safe
+    with cf.ThreadPoolExecutor(max_workers=max(1, min(vlib.NCPU, len(fns)))) as ex:
+        return [f.result() for f in [ex.submit(fn) for fn in fns]]
+
+
+def trace_jobs(ctx, jobs):
+    """jobs: list of (args, trace, what) -> thunks that run the driver and validate the recorded trace; each returns (ok, n)"""
     exe = ctx._c11_exe
-    with cf.ThreadPoolExecutor(max_workers=max(1, min(vlib.NCPU, len(jobs)))) as ex:
-        return list(ex.map(lambda j: validate(ctx, exe, j[0], j[1], j[2]), jobs))
+    return [(lambda j=j: validate(ctx, exe, j[0], j[1], j[2])) for j in jobs]
 
 
-def run_scripts(ctx, scripts, tag):
+def script_jobs(ctx, scripts, tag):
     k = CHUNKS if len(scripts) >= 50 * CHUNKS else 1
     jobs = []
     for i in range(k):
@@ -81,12 +86,14 @@ def run_scripts(ctx, scripts, tag):
                 f.write(json.dumps(s, separators=(",", ":")) + "\n")
         tr = ctx.tmp("%s%d.ndjson" % (tag, i))
         jobs.append((["script", sp, tr], tr, "%d model-generated executions (%s, part %d/%d)" % (len(part), tag, i + 1, k)))
-    res = parallel(ctx, jobs)
+    return jobs
+
+
+def account_replays(ctx, res):
     for ok, n in res:
         if ok:
             ctx.traces_ok -= n
             ctx.replays_ok += n
-    return all(ok for ok, n in res)
 
 
 def close(calls):
@@ -123,18 +130,21 @@ def run(ctx):
         calls = [e["op"] for e in lines if e["e"] == "call"]
         s = {"p": {k: p[k] for k in ("n", "parent", "req", "iok", "sok")}, "named": p.get("named", [1] * p["n"]),
              "c": ["main"] if p.get("wrap") else calls}
-        run_scripts(ctx, [s], "replay")
+        account_replays(ctx, pool(ctx, trace_jobs(ctx, script_jobs(ctx, [s], "replay"))))
         return
     quick = ctx.quick()
     # 1. the design: reference semantics of module.cpp satisfies every clause for all programs <= 4 modules, any call sequence
     # (no -coverage: TLC's coverage report is pathologically slow on the mutually recursive operators; the vacuity guards are
     #  the deviation configurations below, the Destroy witness and the per-action transition counts of the generator)
-    ctx.tlc_mc(SPEC, "MC_ModuleTree.tla", "MC_quick.cfg" if quick else "MC_thorough.cfg", timeout=1500, coverage=False)
-    ctx.tlc_mc(SPEC, "MC_ModuleTree.tla", "MC_witness.cfg", expect="NeverDestroyed", coverage=False, workers=2)
+    mc = [lambda: ctx.tlc_mc(SPEC, "MC_ModuleTree.tla", "MC_quick.cfg" if quick else "MC_thorough.cfg", timeout=1500, coverage=False),
+          lambda: ctx.tlc_mc(SPEC, "MC_ModuleTree.tla", "MC_witness.cfg", expect="NeverDestroyed", coverage=False, workers=1)]
     for cfg, inv in NONVACUITY:                                 # as-found code + model mutants: each invariant can fail
-        ctx.tlc_mc(SPEC, "MC_ModuleTree.tla", cfg, expect=inv, coverage=False, workers=2)
-    # 2. spec -> code
-    cover = ctx.tlc_gen(SPEC, "Gen_ModuleTree.tla", "Gen_cover.cfg", workers=1)    # 1 worker: BFS order, hence the set, is deterministic
+        mc.append(lambda cfg=cfg, inv=inv: ctx.tlc_mc(SPEC, "MC_ModuleTree.tla", cfg, expect=inv, coverage=False, workers=1))
+    # 2. spec -> code.  Gen_cover with 1 worker: BFS order, hence the chosen path per state, is deterministic
+    gens = [lambda: ctx.tlc_gen(SPEC, "Gen_ModuleTree.tla", "Gen_cover.cfg", workers=1),
+            lambda: ctx.tlc_gen(SPEC, "Gen_ModuleTree.tla", "Gen_all.cfg" if quick else "Gen_all_thorough.cfg", timeout=1500, workers=2)]
+    res = pool(ctx, mc + gens)
+    cover, allseq = res[-2], res[-1]
     scripts = prune_prefixes(cover)
     for op, act in (("initialize", "Initialize"), ("start", "Start"), ("stop", "Stop"), ("cleanup", "Cleanup")):
         n = sum(1 for b in cover if b["c"][-1] == op)
@@ -143,7 +153,6 @@ def run(ctx):
         ctx.actions[act] = [n, n]
     ctx.notes.append("transition cover of the model (<= 4 modules): %d transitions -> %d call sequences after prefix pruning"
                      % (len(cover), len(scripts)))
-    allseq = ctx.tlc_gen(SPEC, "Gen_ModuleTree.tla", "Gen_all.cfg" if quick else "Gen_all_thorough.cfg", timeout=1500)
     allseq.sort(key=lambda b: (json.dumps(b["p"], sort_keys=True), b["c"]))
     ctx.notes.append("all call sequences of length 5 for programs with <= %d modules: %d" % (2 if quick else 3, len(allseq)))
     progs = {}
@@ -156,7 +165,7 @@ def run(ctx):
         execs.append({"p": progs[k], "named": naming(rnd, progs[k]), "c": ["main"]})
     ctx.exhaustive = True
     ctx.sample({"kind": "model-generated execution replayed on real Module probes", "script": execs[len(execs) // 3]})
-    run_scripts(ctx, execs, "gen")
+    gen_jobs = script_jobs(ctx, execs, "gen")
     # 3. code -> spec: random larger trees
     nexec = 800 if quick else 30000                            # per chunk
     jobs = []
@@ -164,7 +173,8 @@ def run(ctx):
         tr = ctx.tmp("random%d.ndjson" % i)
         jobs.append((["random", ctx.seed * 1000 + i, nexec, 12, 5, 8, tr], tr,
                      "random trees <= 12 modules, depth <= 5 (part %d/%d)" % (i + 1, CHUNKS)))
-    parallel(ctx, jobs)
+    res = pool(ctx, trace_jobs(ctx, gen_jobs + jobs))
+    account_replays(ctx, res[:len(gen_jobs)])
     tr = jobs[0][1]
     first = vlib.read_lines(tr, 1, 7)
     ctx.sample({"kind": "recorded trace of a random tree (first lines)", "events": [json.loads(x) for x in first]})
